@@ -146,6 +146,12 @@ package generator
 //     requires *c == zero(A);  ensures a non-null non-array document is rejected
 //   emitted func (A).marshalJSONInnerBody: also  ensures err == nil ==> the items written are Encode(c[0]), ..., Encode(c[n-1]) in order   [C07]
 //     loop #0 invariant jalen == old + processed && for q < processed: jaidx[old+q] == enc(c[q])
+//   emitted func (*A).unmarshalJSONInnerBody(m []json.RawMessage) error     [array schemas]       option family=json-unmarshal-array-inner
+//     ensures err == nil ==> len(*c) == len(m) && for i < len(m): item i decodes and (*c)[i] is its decoded value   [C06, C08]
+//     ensures err != nil ==> some item fails to decode                                                          [C08]
+//     loop #0 invariant len(out) == processed && out is this call's array && for q < processed: out[q] is the decoded m[q]
+//     loop #0 invariant the raw items are not written
+//   emitted func (*A).UnmarshalJSON: also  the same item clauses over docItem(rawdoc(bs), i)
 //   emitted func (O).MarshalJSON() ([]byte, error)                          [oneOf schemas]       option family=json-marshal-oneof
 //     ensures err == nil ==> some variant is set; the result is the document MarshalJSON of the first set variant yields
 //   emitted func (*O).UnmarshalJSON(bs []byte) error                        [oneOf schemas]       option family=json-unmarshal-oneof
